@@ -164,6 +164,7 @@ type srvRun struct {
 	idleCancel func()
 	loginID    map[int]uint32
 	loginArgs  map[int]map[string]any
+	admPw      string // the world's password of account "adm" (storm participants log in with it)
 }
 
 func (r *srvRun) chatOf(b []byte) int {
@@ -396,6 +397,7 @@ func runSrvScript(run int, sc srvScript) (evs []map[string]any, err error) {
 	w.Srv.ClientMgr = &gateCM{ClientManager: w.Srv.ClientMgr, g: g}
 	r := &srvRun{g: g, points: map[int]*gatePoint{}, loginID: map[int]uint32{}, loginArgs: map[int]map[string]any{}, w: w, cl: map[int]*sim.Client{}, ids: map[int]int{}, ips: map[int]string{}, chatIdx: map[string]int{},
 		pending: map[int]map[uint32]string{}, settle: map[int]map[uint32]bool{}, doneSeen: map[int]bool{}, port: 20000, soon: map[string]time.Time{}}
+	r.admPw = string(bytesOf(sc.World.Accts["adm"].Pw))
 	wa := map[string]any{}
 	for l, a := range sc.World.Accts {
 		wa[l] = map[string]any{"pw": nz(a.Pw), "name": nz(a.Name), "acc": nz(a.Acc)}
